@@ -42,10 +42,10 @@ OUTSIDE = [
 def bounds(tier):
     if tier == "quick":
         return dict(tensors="2..3", max_rank=2, max_labels=4, max_out_rank=2, trees="all", sizes="unbounded Int >= 2; plus one (rotating) label == 1",
-                    sliced="every subset of <=2 labels, singletons both sliced and projected, pairs one rotating mode, one removal order")
+                    sliced="every subset of <=2 labels, singletons both sliced and projected, pairs one rotating mode, one removal order; plus remove->restore sequences (per pair one rotating label restored while the other stays removed)")
     return dict(tensors="2..4", max_rank="N=2: 3; N=3: 2 (all) + 3 (every 25th); N=4: 2 (every 40th) + 5 fixed", max_labels=4, max_out_rank=2, trees="all",
                 sizes="unbounded Int >= 2, or ==1 for any subset of <=2 labels",
-                sliced="every subset of <=2 labels (<=3 for N<=3), sliced or projected, every removal order")
+                sliced="every subset of <=2 labels (<=3 for N<=3), sliced or projected, every removal order; plus remove->restore sequences (every singleton, every pair order with either label restored)")
 
 
 def items(tier, seed):
@@ -112,7 +112,27 @@ def slice_configs(labels, tier, n):
                 if tier == "thorough" and k > 1:
                     seqs = [tuple(p) for p in itertools.permutations(tuple(zip(sub, modes)))]
                 cfgs.extend(seqs)
+                # remove -> (remove) -> restore: a restoration while another index is still sliced / projected
+                # (mode 'r' restores the label); quick: one rotating restored label per pair
+                if k == 1 and tier == "thorough":
+                    cfgs.append(tuple(zip(sub, modes)) + ((sub[0], "r"),))
+                if k == 2:
+                    for base in seqs if tier == "thorough" else seqs[:1]:
+                        which = range(2) if tier == "thorough" else [rot % 2]
+                        for w in which:
+                            cfgs.append(base + ((base[w][0], "r"),))
     return cfgs
+
+
+def effective(cfg):
+    """(sliced, projected) labels left after the removal / restoration sequence"""
+    state = {}
+    for ix, m in cfg:
+        if m == "r":
+            state.pop(ix)
+        else:
+            state[ix] = m
+    return [ix for ix, m in state.items() if m == "s"], [ix for ix, m in state.items() if m == "p"]
 
 
 def ones_patterns(labels, tier, salt=0):
@@ -179,6 +199,8 @@ def make_tree(inputs, output, size, ssa, cfg, variant, build="ssa", warm=0):
             warm_up(tree)
         if mode == "s":
             tree.remove_ind_(ix)
+        elif mode == "r":
+            tree.restore_ind_(ix)
         else:
             tree.remove_ind_(ix, project=0)
     return tree
@@ -233,8 +255,7 @@ def run_item(item, rec):
                             peak = tree.peak_size(order)
                             if tree._track_size:
                                 symx.keys_guard(tree._sizes._c)
-                            sliced = [ix for ix, m in cfg if m == "s"]
-                            proj = [ix for ix, m in cfg if m == "p"]
+                            sliced, proj = effective(cfg)
                             ref = costs.tree_costs(inputs, output, size, steps, sliced, proj)
                             bads = []
                             if not ok_order:
@@ -321,8 +342,7 @@ def concrete_stats(inputs, output, size, ssa, cfg, variant, order=None, build="s
     tree = make_tree(inputs, output, size, ssa, cfg, variant, build, warm)
     st = tree.contract_stats()
     steps = list(tree.traverse(order))
-    sliced = [ix for ix, m in cfg if m == "s"]
-    proj = [ix for ix, m in cfg if m == "p"]
+    sliced, proj = effective(cfg)
     ref = costs.tree_costs(inputs, output, size, steps, sliced, proj)
     got = dict(flops=st["flops"], write=st["write"], size=st["size"], peak=tree.peak_size(order), tf=tree.total_flops(),
                tw=tree.total_write(), ms=tree.max_size())
